@@ -28,6 +28,12 @@
 // PR_RESULT_DATAITEMS are ignored by the replicas (C04 covers them).  A removed node's index entries are reported as removed
 // one by one, so a replica that only follows the index log ends up empty for a removed node.
 //
+// Parts: "from-empty" (full 50-command alphabet, depth 5 quick / 6 thorough), "from-prefixes" (full alphabet from 3 populated
+// start states, depth 3 / 4), "core-deep" (the 25 commands marked C below, depth 6 / 8).  --depth / --pdepth / --cdepth override.
+// Execution is lazy and verdicts are memoised per history prefix per process exactly as in C04_mirror.cpp: enabledness is judged
+// on the (pure) reference, so a disabled command costs no server work; every distinct prefix is executed and compared at least
+// once in every process that extends it.  C13_TRACE=1 with --replay prints what every client was sent after each command.
+//
 // Outside the compared domain (executed, reference follows the implementation, a disagreement there is reported as a harness
 // calibration error, not as a violation): ORDER after REORDERDATA "before <an existing but non-indexed child>", after a
 // wildcard REORDERDATA (children are visited in the node's own child order) and after restoring a saved subtree over a partly
@@ -645,7 +651,7 @@ int main(int argc, char ** argv)
       if (d.Str("part") == "core-deep") { seqx::Explorer<IndexModel> ex(core, args, res, "core-deep"); return ex.ReplayFile(d); }
       seqx::Explorer<IndexModel> ex(empty, args, res, "from-empty"); return ex.ReplayFile(d);
    }
-   int depth = args.Thorough() ? 6 : 5, pdepth = args.Thorough() ? 4 : 3, cdepth = args.Thorough() ? 7 : 6;
+   int depth = args.Thorough() ? 6 : 5, pdepth = args.Thorough() ? 4 : 3, cdepth = args.Thorough() ? 8 : 6;
    uint64_t cap = 6000000;
    if (args.kv.count("depth")) depth = atoi(args.kv["depth"].c_str());
    if (args.kv.count("pdepth")) pdepth = atoi(args.kv["pdepth"].c_str());
